@@ -1012,3 +1012,38 @@ fn test_polyeval() {
     assert_eq!(zn.to_int(vals[1]).digits()[0], 103050709);
     assert_eq!(zn.to_int(vals[2]).digits()[0], 1_003_005_007_009);
 }
+
+/// Verification hooks (only with `--cfg yamaquasi_verif`): the private recursive routines of
+/// `Poly` (Karatsuba, middle product, power series inverse/quotient, remainder tree) called
+/// directly with caller-supplied buffers, for differential testing.
+#[cfg(yamaquasi_verif)]
+pub mod verif_hooks {
+    use super::*;
+
+    pub const VH_FFT_THRESHOLD: usize = FFT_THRESHOLD;
+
+    pub fn vh_karatsuba(zn: &ZmodN, z: &mut [MInt], p: &[MInt], q: &[MInt], tmp: &mut [MInt]) {
+        Poly::karatsuba(zn, z, p, q, tmp)
+    }
+    pub fn vh_basic_mul(zn: &ZmodN, z: &mut [MInt], p: &[MInt], q: &[MInt]) {
+        Poly::_basic_mul(zn, z, p, q)
+    }
+    pub fn vh_longmul(zr: &PolyRing, z: &mut [MInt], p: &[MInt], q: &[MInt], tmp: &mut [MInt]) {
+        Poly::_longmul(zr, z, p, q, tmp)
+    }
+    pub fn vh_middlemul(zr: &PolyRing, z: &mut [MInt], p: &[MInt], q: &[MInt], tmp: &mut [MInt]) {
+        Poly::_middlemul(zr, z, p, q, tmp)
+    }
+    pub fn vh_fft_midmul(mzp: &MultiZmodP, z: &mut [MInt], p: &[MInt], q: &[MInt]) {
+        Poly::_fft_midmul(mzp, z, p, q)
+    }
+    pub fn vh_inv_mod_xn(zr: &PolyRing, z: &mut [MInt], p: &[MInt], tmp: &mut [MInt]) {
+        Poly::_inv_mod_xn(zr, z, p, tmp)
+    }
+    pub fn vh_div_mod_xn(zr: &PolyRing, z: &mut [MInt], p: &[MInt], q: &[MInt], tmp: &mut [MInt]) {
+        Poly::_div_mod_xn(zr, z, p, q, tmp)
+    }
+    pub fn vh_multi_eval(p: &Poly, tree: &[Vec<MInt>]) -> Vec<MInt> {
+        p._multi_eval(tree)
+    }
+}
